@@ -1,6 +1,6 @@
 (* C03 - case record and boolean checkers for the generated history files. *)
 From Coq Require Import List Bool ZArith String.
-From AL Require Import Base.CaseLib C03.Spec.
+From AL Require Import Base.CaseLib C03.Spec C03.Model.
 Import ListNotations.
 
 Definition pool_entry (p : pool) : entry := EStream (pool_seq p).
@@ -20,4 +20,8 @@ Record hcase := HC { h_pool : list pool; h_ops : list op; h_obs : list obs }.
 
 Definition holds_hist (c : hcase) : bool :=
   list_eqb obs_eqb (h_obs c) (run (map pool_entry (h_pool c)) (h_ops c)).
-Definition corr_hist (c : hcase) : bool := holds_hist c.
+(* implementation-level model; the fuel bounds nesting depth / filter and skip
+   loops of one next() and the length of take(inf): ample for generated cases *)
+Definition check_fuel : nat := 2000.
+Definition corr_hist (c : hcase) : bool :=
+  list_eqb obs_eqb (h_obs c) (irun check_fuel (init (h_pool c)) (h_ops c)).
